@@ -94,6 +94,8 @@ where
         g.nodes_vec@.len() == 0,
         g.edges_map@.len() == 0,
         g.specs == specs,
+        g.wf_estore(),
+        g.wf_rows(),
 //@ end
 
 //@ extract fn src/graph/query.rs get_node_index props=C02,C20 ty=Graph
@@ -192,6 +194,8 @@ for node_name in it: node_names
         final(self).predecessors@ == old(self).predecessors@,
         // [C01.add_node.wf_estore_preserved]
         old(self).wf_estore() ==> final(self).wf_estore(),
+        // [C03.add_node.wf_rows_preserved]
+        old(self).wf_rows() ==> final(self).wf_rows(),
         // [C03.add_node.traversal_rows_frame]
         old(self).nodes_map@.contains_key(node.name) ==> final(self).successors_vec@ == old(self).successors_vec@ && final(self).predecessors_vec@ == old(self).predecessors_vec@,
         !old(self).nodes_map@.contains_key(node.name) ==> rows_extended(old(self).successors_vec@, final(self).successors_vec@) && rows_extended(old(self).predecessors_vec@, final(self).predecessors_vec@),
@@ -371,11 +375,13 @@ for edge in it: edges
         final(self).wf_nodes(),
         final(self).wf_estore(),
         final(self).specs == old(self).specs,
+        old(self).wf_rows() ==> final(self).wf_rows(),
 //@ loop 1
             invariant
                 self.wf_nodes(),
                 self.wf_estore(),
                 self.specs == old(self).specs,
+                old(self).wf_rows() ==> self.wf_rows(),
                 exists|h: Seq<Graph<T, A>>| #[trigger] prefix_applied(*old(self), edges_of(edges@), h, it.index@, *self),
 //@ before for edge in edges
         proof {
@@ -416,11 +422,13 @@ for edge in it: edges
         final(self).wf_nodes(),
         final(self).wf_estore(),
         final(self).specs == old(self).specs,
+        old(self).wf_rows() ==> final(self).wf_rows(),
 //@ loop 1
             invariant
                 self.wf_nodes(),
                 self.wf_estore(),
                 self.specs == old(self).specs,
+                old(self).wf_rows() ==> self.wf_rows(),
                 exists|h: Seq<Graph<T, A>>| #[trigger] prefix_applied(*old(self), tuple_edges::<T, A>(edges@), h, it.index@, *self),
 //@ before for edge in edges
         proof {
@@ -467,6 +475,7 @@ for node in it: nodes
         // [C01.add_nodes.wf_and_frame]
         final(self).wf_nodes(),
         old(self).wf_estore() ==> final(self).wf_estore(),
+        old(self).wf_rows() ==> final(self).wf_rows(),
         final(self).edges_map@ == old(self).edges_map@,
         final(self).specs == old(self).specs,
         // [C01.add_nodes.all_named_nodes_known_old_positions_kept]
@@ -477,6 +486,7 @@ for node in it: nodes
             invariant
                 self.wf_nodes(),
                 old(self).wf_estore() ==> self.wf_estore(),
+                old(self).wf_rows() ==> self.wf_rows(),
                 self.edges_map@ == old(self).edges_map@,
                 self.specs == old(self).specs,
                 forall|j: int| 0 <= j < it.index@ ==> self.knows(#[trigger] nodes@[j].name),
@@ -502,7 +512,7 @@ for node in it: nodes
             &&& (r2.is_err() ==> r.is_err())
         },
         // [C01.new_from_nodes_and_edges.result_wf]
-        r.is_ok() ==> r.unwrap().wf_nodes() && r.unwrap().wf_estore() && r.unwrap().specs == specs,
+        r.is_ok() ==> r.unwrap().wf_nodes() && r.unwrap().wf_estore() && r.unwrap().wf_rows() && r.unwrap().specs == specs,
 //@ end
 
 //@ extract fn src/graph/ensure.rs ensure_directed props=C02,C20 ty=Graph
